@@ -58,6 +58,14 @@ class LoopStep:
             self.why = f"{rel}:{qualname} not found"
             return
         self.fn = fn
+        # simple initialisations `name = <expr>` / `name: T = <expr>` anywhere in the function (roles of the loop state are
+        # resolved by what a local is initialised with, not by its name: a renamed local is still found)
+        self.inits: Dict[str, str] = {}
+        for n in ast.walk(fn):
+            if isinstance(n, ast.Assign) and len(n.targets) == 1 and isinstance(n.targets[0], ast.Name):
+                self.inits.setdefault(n.targets[0].id, ast.unparse(n.value))
+            elif isinstance(n, ast.AnnAssign) and isinstance(n.target, ast.Name) and n.value is not None:
+                self.inits.setdefault(n.target.id, ast.unparse(n.value))
         loops = outer_loops(fn)
         self.n_loops = len(loops)
         if ordinal >= len(loops):
@@ -116,6 +124,17 @@ class LoopStep:
         self.fv = FuncV(rel, f"{qualname}.<loop-step#{ordinal}>", step)
         # enclosing class (so that super() / self.method resolve) is not needed: bodies call through `self`
         self.ok = True
+
+    def local_with_init(self, init_src: str, default: str, nth: int = 0) -> str:
+        """Name of the nth local initialised with `init_src` (source order); `default` when there is none."""
+        if not self.ok and not hasattr(self, "inits"):
+            return default
+        hits = [n for n, v in self.inits.items() if v == init_src]
+        return hits[nth] if nth < len(hits) else default
+
+    def target(self, i: int, default: str, inner: bool = False) -> str:
+        ts = getattr(self, "inner_targets" if inner else "outer_targets", [])
+        return ts[i] if i < len(ts) else default
 
     def describe(self) -> str:
         if not self.ok:
